@@ -33,14 +33,20 @@ package pbytes
 // (established by New, preserved by every Put and Get, see pool.Pool.Put#post:shard)
 // is an explicit assumption here.
 //@ func Get
+//@   event
 //@   mode bv
 //@   requires 0 <= c && c <= 1<<47
 //@   assumes DefaultPool != nil && pool.inv(DefaultPool.pool) && DefaultPool.pool.stepSize <= 1<<47
 //@   assumes SIall: forallint(i, forallv(x, *[]byte, forallint(s, pool.SI(DefaultPool.pool, i, x, s))))
 //@   modifies ghost pooltyp
 //@   ensures capacity: result != nil && cap(*result) >= c && len(*result) <= cap(*result)
+// C19 exclusivity, as an ownership abstraction: a buffer handed out by the pool is referenced by
+// nobody else (it was handed in by Put exactly once, sync.Pool hands it out at most once), so it
+// behaves like newly allocated memory.
+//@   ensures_assumed exclusive: fresh(result) && fresh(*result)
 
 //@ func Put
+//@   event
 //@   mode bv
 //@   forall i0 int
 //@   forall x0 *[]byte
